@@ -53,10 +53,10 @@ Hypothesis fresh_inj : forall a b, fresh a = fresh b -> a = b.
 
 (* a node that is NodeOK renders to a node that satisfies the per-node clauses (b)-(f), in any flow that holds
    the uuids its exits may name *)
-Lemma render_node_closed n U f nd :
-  NodeOK fresh n U nd -> (forall u, In u U -> In u (node_uuids f)) -> NodeClosed f (render_node nd).
+Lemma render_node_closed GP n U f nd :
+  NodeOK fresh GP n U nd -> (forall u, In u U -> In u (node_uuids f)) -> NodeClosed f (render_node nd).
 Proof.
-  intros [_ _ Hb] HU.
+  intros [_ _ Hb _] HU.
   assert (Hdest : forall d, dest_ok U d -> match render_dest d with None => True | Some u => In u (node_uuids f) end).
   { intros [u|]; cbn; [|auto]. destruct (str_eqb u hard_exit_sentinel) eqn:E; [auto|].
     intros [->|Hin]; [rewrite str_eqb_refl in E; discriminate|apply HU, Hin]. }
@@ -98,8 +98,8 @@ Proof.
 Qed.
 
 (* what cfinish builds: the nodes are nodes of the store, and every uuid of the store is the uuid of one of them *)
-Lemma cfinish_nodes validate name s f :
-  Inv fresh s -> cfinish_with fresh validate name s = Ok f ->
+Lemma cfinish_nodes GP validate name s f :
+  Inv fresh GP s -> cfinish_with fresh validate name s = Ok f ->
   exists nds, f_nodes f = map render_node nds /\ validate (map cn_uuid nds) = None
               /\ (forall nd, In nd nds -> In nd (cs_nodes s))
               /\ (forall u, In u (uuids s) -> In u (map cn_uuid nds)).
@@ -132,8 +132,8 @@ Theorem compile_nodes_closed validate name rows f :
   compile_with fresh validate name rows = Ok f -> forall nd, In nd (f_nodes f) -> NodeClosed f nd.
 Proof.
   unfold compile_with. destruct (crun fresh rows) as [s|x] eqn:Er; [|discriminate].
-  intros Hf. assert (Hi := crun_Inv fresh fresh_inj _ _ Er).
-  destruct (cfinish_nodes _ _ _ _ Hi Hf) as (nds & Efn & _ & Hsub & Hall).
+  intros Hf. assert (Hi := crun_Inv fresh (fun _ => True) fresh_inj _ _ (fun _ _ _ => I) Er).
+  destruct (cfinish_nodes _ _ _ _ _ Hi Hf) as (nds & Efn & _ & Hsub & Hall).
   intros nd Hnd. rewrite Efn in Hnd. apply in_map_iff in Hnd as (cn & <- & Hcn).
   eapply render_node_closed.
   - destruct Hi as [[Hst _] _ _]. rewrite Forall_forall in Hst. apply Hst, Hsub, Hcn.
@@ -146,8 +146,8 @@ Lemma compile_validated validate name rows f :
   compile_with fresh validate name rows = Ok f -> validate (node_uuids f) = None.
 Proof.
   unfold compile_with. destruct (crun fresh rows) as [s|x] eqn:Er; [|discriminate].
-  intros Hf. assert (Hi := crun_Inv fresh fresh_inj _ _ Er).
-  destruct (cfinish_nodes _ _ _ _ Hi Hf) as (nds & Efn & Ev & _ & _).
+  intros Hf. assert (Hi := crun_Inv fresh (fun _ => True) fresh_inj _ _ (fun _ _ _ => I) Er).
+  destruct (cfinish_nodes _ _ _ _ _ Hi Hf) as (nds & Efn & Ev & _ & _).
   unfold node_uuids. rewrite Efn, map_map. erewrite map_ext; [exact Ev|]. intros a. apply render_node_uuid.
 Qed.
 
